@@ -82,7 +82,12 @@ let samples = ref 0
 
 let () =
   let path = Sys.argv.(1) in
-  let fixed_model = not (Array.length Sys.argv > 2 && Sys.argv.(2) = "unfixed") in
+  let args = Array.to_list (Array.sub Sys.argv 2 (Array.length Sys.argv - 2)) in
+  let fixed_model = not (List.mem "unfixed" args) in
+  (* the overlay labels are judged cell by cell for one pair in [every] (cost: about 3 ms per pair) *)
+  let every = List.fold_left (fun acc a ->
+      if String.length a > 6 && String.sub a 0 6 = "every=" then int_of_string (String.sub a 6 (String.length a - 6)) else acc) 1 args in
+  let overlay_seen = ref 0 in
   let digits = [| cF; c0; c1; c2 |] in
   iter_lines path (fun line ->
       let f = split_tabs line in
@@ -180,6 +185,31 @@ let () =
               fail id "SPEC" "empty_member_transparent_relate" (Printf.sprintf "with=%s without=%s" rab f.(10));
             if f.(11) <> pab then
               fail id "SPEC" "empty_member_transparent_predicates" (Printf.sprintf "with=%s without=%s" pab f.(11))
+          end;
+          (* the labelled overlay behind Relate(a,b), when the hook exported it *)
+          if Array.length f > 12 && f.(12) <> "-" && String.length rab = 9 then begin
+            let o = Overlay.parse_overlay f.(12) in
+            count "overlay_dumps";
+            if o.Overlay.matrix <> rab then
+              fail id "CORR" "overlay_is_relates" (Printf.sprintf "matrix of the dumped overlay=%s Relate=%s" o.Overlay.matrix rab);
+            (* CORR: the transcription of extractIntersectionMatrix on Go's own labels *)
+            (match matrix_of_complex o.Overlay.xc with
+             | Some m -> let ms = matrix_string m in
+               if ms <> rab then fail id "CORR" "matrix_of_complex" (Printf.sprintf "model on the dumped labels=%s impl=%s" ms rab)
+             | None -> fail id "CORR" "matrix_of_complex" ("model panics (vertex without incident half edge) impl=" ^ rab));
+            (match matrix_of_complex (swap_x o.Overlay.xc) with
+             | Some m -> if matrix_string m <> rba then
+                 fail id "SPEC" "overlay_swap_is_relate_ba" (Printf.sprintf "swapped overlay=%s Relate(b,a)=%s" (matrix_string m) rba)
+             | None -> ());
+            (* SPEC: the arbitrary incident half edge of vertexRecord.location does not matter *)
+            if not (incidents_agree o.Overlay.xc) then fail id "SPEC" "dcel_incidents_agree" "incident half edges of an unflagged vertex disagree";
+            (* SPEC: every cell's label is the definitional location at a witness of the cell *)
+            incr overlay_seen;
+            if !overlay_seen mod every = 0 then begin
+              let probs, st = Overlay.judge_overlay a b o in
+              List.iter (fun (k, v) -> for _ = 1 to v do count k done) st;
+              List.iter (fun (name, detail) -> fail id "SPEC" name detail) probs
+            end
           end;
           if !samples < 4 && not (ea || eb) && String.length line < 400 then begin
             incr samples; Printf.printf "SAMPLE\t%s\n" line end
